@@ -341,6 +341,12 @@ let register (reg : string -> (Sx.t list -> Sx.t) -> unit) : unit =
          | Upstream.RedirectSlash -> Y "redirect_slash"
          | Upstream.NotFound -> Y "notfound")
       | _ -> raise (Bad "upstream_route arity"));
+  (* the raw query a matched upstream receives; reenc = what url.ParseQuery+Encode makes of the rule's own query *)
+  reg "forwarded_query" (function
+      | [reenc; rewritten; orig] ->
+        let r = rd_opt rd_str reenc in
+        wr_opt wr_str (Upstream.forwarded_query (fun _ -> r) (rd_opt rd_str rewritten) (rd_str orig))
+      | _ -> raise (Bad "forwarded_query arity"));
   (* ---- Proxy ---- *)
   reg "proxy_serve" (function
       | [ep; skipb; fjson; bypass; domains; groups; bearer; basic; stored; ajax; api; vg; clearfails] ->
